@@ -562,13 +562,17 @@ METHOD_REDUCERS = ["sum", "prod", "mean", "std", "var", "max", "min", "argmax", 
 NP_ONLY_REDUCERS = ["median", "average", "amax", "amin"]
 # other numpy reductions that reach the FeArray through the array protocols
 # "Norm" = the library's own wrapper of np.linalg.norm (a keyword-only axis): same type rule as any other reduction
-EXTRA_REDUCERS = ["nansum", "nanmax", "ptp", "count_nonzero", "add.reduce", "maximum.reduce", "linalg.norm", "Norm", "Norm"]
+EXTRA_REDUCERS = ["nansum", "nanmax", "ptp", "count_nonzero", "add.reduce", "maximum.reduce", "linalg.norm", "Norm", "Norm", "quantile", "percentile"]
 NO_TUPLE = ["argmax", "argmin", "linalg.norm", "Norm"]
 
 
 def np_callable(name):
     if name == "Norm":
         return lambda x, **kw: (Norm if isinstance(x, FeArray) else np.linalg.norm)(x, **kw)
+    if name == "quantile":
+        return lambda x, **kw: np.quantile(x, 0.25, **kw)
+    if name == "percentile":
+        return lambda x, **kw: np.percentile(x, 60.0, **kw)
     f = np
     for part in name.split("."):
         f = getattr(f, part)
@@ -708,8 +712,12 @@ def check_protocol(case, rec):
         if expect:
             ref = pointwise(lambda x: np.reshape(x, new[2:]), [A], Ne, nPg)
     elif op == "ravel":
-        expect, ref = False, raw.ravel()
-        cut = (lambda: np.ravel(fe)) if form == "np" else (lambda: fe.ravel())
+        # in C order, or in Fortran order given positionally / by keyword (the argument of ravel is an order, not an axis)
+        order = ["C", "F", "F"][k % 3]
+        expect, ref = False, raw.ravel(order)
+        cut = {"np": lambda: np.ravel(fe, order), "method": lambda: fe.ravel(order) if order == "F" else fe.ravel(),
+               "method_tuple": lambda: fe.ravel(order=order)}[form]
+        rec.label("ravel:" + order)
     elif op == "integrate":
         expect, ref = False, raw.sum(axis=1)
         cut = lambda: fe.integrate()  # noqa
